@@ -399,7 +399,7 @@ def ob_forced_plan_history(W, lo, hi):
                 "navg": rnp.full(nb, 1), "D": [rnp.array([0])] * nb, "O": rnp.zeros(nb), "nf": n}
     cfgd = {"scheduler_func": sched, "scheduler_name": "stub", "final_olap": 0.5, "bmin": 1.0, "Lmin": 1, "Kdes": 10, "force_target_nf": True, "Jdes": target, "band": None, "num_patch_pts": None}
     if W.sym:
-        G = clone_module(A, dict(np=NumpyShim(), find_Jdes_binary_search=clone(U.find_Jdes_binary_search, MIN_JDES=lo, MAX_JDES=hi)))
+        G = clone_module(A, dict(np=NumpyShim(), find_Jdes_binary_search=clone_module(U, dict(MIN_JDES=lo, MAX_JDES=hi))["find_Jdes_binary_search"]))
         a = object.__new__(G["SpectrumAnalyzer"])
     else:
         a = object.__new__(A.SpectrumAnalyzer)
